@@ -90,6 +90,23 @@ def gen_cases(ctx, rng):
         cases.append({"dir": rng.choice(["upstream", "downstream"]), "chain": chain, "src": src0, "srcs": [src0, probe, probe],
                       "links": 3, "link_start": [0, 0, tend + 10 * L.MS], "ops": ops, "horizon": tend + 120000 * L.MS, "seed": i,
                       "expect_chain": live})
+    # a connection whose sender has already closed but whose data (or close) is still held by a delaying toxic is still a connection:
+    # removing / neutralising that toxic must take effect on it at once
+    stats["draining_connections"] = 0
+    for i in range(30 if ctx.tier == "quick" else 800):
+        D = rng.choice([3000, 6000])
+        holder = rng.choice([L.tx("latency", name="h", latency=D, jitter=0), L.tx("slow_close", name="h", delay=D)])
+        chain = ([L.tx("noop", name="p")] if rng.chance(1, 3) else []) + [holder]
+        src = [{"at": 1 * L.MS, "n": rng.range(1, 4000)}, {"at": 2 * L.MS, "n": rng.range(1, 400)}, {"at": 5 * L.MS, "close": True}]
+        R = rng.range(20, 900) * L.MS + rng.range(1, 999)
+        how = rng.choice(["remove", "update", "reset"])
+        attr = "latency" if holder["type"] == "latency" else "delay"
+        ops = [{"remove": {"at": R, "op": "remove", "name": "h"}, "reset": {"at": R, "op": "reset"},
+                "update": {"at": R, "op": "update", "name": "h", "body": '{"attributes": {"%s": 0}}' % attr}}[how]]
+        live = [x["name"] for x in chain if not (x["name"] == "h" and how in ("remove", "reset")) and how != "reset"]
+        cases.append({"dir": rng.choice(["upstream", "downstream"]), "chain": chain, "src": src, "ops": ops, "horizon": 600000 * L.MS,
+                      "seed": 7000 + i, "expect_chain": live, "drain": {"at": R, "how": how, "holder": holder["type"]}})
+        stats["draining_connections"] += 1
     return cases, stats
 
 
@@ -108,6 +125,16 @@ def oracle(case, res):
         names = [c.split(":", 1)[1] for c in chain[1:]]
         if names != case["expect_chain"]:
             return "listed chain %s, expected %s" % (names, case["expect_chain"])
+    if case.get("drain"):
+        R = case["drain"]["at"]
+        sent = sum(e.get("n", 0) for e in case["src"])
+        if res["total"] != sent or not res["prefix_ok"]:
+            return "draining connection: %d of %d bytes delivered" % (res["total"], sent)
+        if res["closed"] != R:
+            return ("the %s toxic was %s at %d ns while it still held the %s of a connection whose sender had closed, but that connection was served "
+                    "as if the toxic were still there: closed at %d ns" % (case["drain"]["holder"], {"remove": "removed", "reset": "reset away", "update": "updated to 0"}[case["drain"]["how"]],
+                                                                           R, "data" if case["drain"]["holder"] == "latency" else "close", res["closed"]))
+        return None
     more = res.get("more") or []
     timed = any(t["type"] == "timeout" for t in case["chain"]) or any((o.get("toxic") or {}).get("type") == "timeout" for o in case.get("ops") or [])
     # (a timeout toxic counts from the moment it took effect on each connection, and removing one closes the
@@ -139,10 +166,11 @@ def run(ctx):
     try:
         return L.run_link_property(
             ctx, PID, gen_cases, lambda c, r: (r.get("c04_verdict") if r and "crash" not in r else oracle(c, r)),
-            classify=lambda w: "misaligned" if "misaligned" in w else ("crash" if "crashed" in w else ("old-vs-new" if "treat the same probe" in w else "other")),
+            classify=lambda w: "draining-connection-skipped" if "sender had closed" in w or "draining" in w else "misaligned" if "misaligned" in w else ("crash" if "crashed" in w else ("old-vs-new" if "treat the same probe" in w else "other")),
             rule="histories of 1-7 add/update/remove/reset operations (all toxic types, removals from the middle, name re-use) on a proxy with a busy "
                  "connection whose sender may close mid-history, an idle old connection and a connection established afterwards; after the history "
-                 "the verif shim lists chain vs stubs per link and the idle-old and new connections get the same probe; non-trivial = at least one "
+                 "the verif shim lists chain vs stubs per link and the idle-old and new connections get the same probe; plus connections whose sender "
+                 "has closed while a latency / slow_close toxic still holds their data or close, when that toxic is removed, updated to 0 or reset; non-trivial = at least one "
                  "removal or update; distinct by JSON",
             nontrivial=lambda c: any(o["op"] in ("remove", "update", "reset") for o in c.get("ops") or []),
             assumptions=["toxicity 0 or 1 only (deterministic comparison)", "reset_peer is excluded (socket option applied at connect time only, C13)"],
